@@ -2,6 +2,7 @@ package main
 
 import (
 	"fmt"
+	"strings"
 	"go/token"
 	"go/types"
 
@@ -380,13 +381,14 @@ type iter struct {
 	str  []V
 }
 
-func (in *Interp) rangeIter(v V) V {
+func (in *Interp) rangeIter(v V, t types.Type) V {
 	switch x := v.(type) {
 	case *MapV:
 		it := &iter{m: x}
 		if x != nil {
 			it.keys = append([]V{}, x.Keys...)
 			it.vals = append([]V{}, x.Vals...)
+			in.permuteMapOrder(it, t)
 		}
 		return it
 	case Str:
@@ -396,6 +398,49 @@ func (in *Interp) rangeIter(v V) V {
 		return &iter{str: []V{x}}
 	}
 	panic(unsupported(fmt.Sprintf("range over %T", v)))
+}
+
+// permuteMapOrder makes the iteration order of the maps a harness declares order-sensitive (HarnessSpec.MapOrder:
+// substrings of the map type) a choice of the path: every permutation for up to 3 entries, every rotation in both
+// directions beyond that. All other maps iterate in insertion order.
+func (in *Interp) permuteMapOrder(it *iter, t types.Type) {
+	n := len(it.keys)
+	if n < 2 || in.spec == nil || len(in.spec.MapOrder) == 0 {
+		return
+	}
+	ts := t.String()
+	match := false
+	for _, m := range in.spec.MapOrder {
+		if strings.Contains(ts, m) {
+			match = true
+		}
+	}
+	if !match {
+		return
+	}
+	var perm []int
+	if n <= 3 {
+		perms := [][]int{{0, 1}, {1, 0}}
+		if n == 3 {
+			perms = [][]int{{0, 1, 2}, {0, 2, 1}, {1, 0, 2}, {1, 2, 0}, {2, 0, 1}, {2, 1, 0}}
+		}
+		perm = perms[in.ex.take("maporder", len(perms), nil)]
+	} else {
+		k := in.ex.take("maporder", 2*n, nil)
+		perm = make([]int, n)
+		for i := range perm {
+			if k < n {
+				perm[i] = (k + i) % n
+			} else {
+				perm[i] = ((k-n)-i+2*n) % n
+			}
+		}
+	}
+	keys, vals := make([]V, n), make([]V, n)
+	for i, p := range perm {
+		keys[i], vals[i] = it.keys[p], it.vals[p]
+	}
+	it.keys, it.vals = keys, vals
 }
 
 func (in *Interp) next(it *iter, x *ssa.Next) V {
